@@ -19,7 +19,7 @@ ID = "C11"
 LEVEL = "model_checking"
 ENGINE = "E1 table + E2 history enumeration (states = event sequences, un-merged)"
 RULE = (
-    "table: tempo maps of <= 4 events over gaps {1,2,5} x every tick 0..last+3 x every hint 0..len; histories: every "
+    "table: tempo maps of <= 4 events over gaps {1,2,5} and long maps of 9..65 events x every tick 0..last+3 x every hint 0..len; histories: every "
     "sequence of <= L ticks over {0,1,4,5,6,9,10,11,20} in any order, for each of 9 event kinds and each map; distinct = "
     "distinct (map, kind, sequence) or (map, tick, hint); non-trivial = sequence has >= 2 events or hint > 0"
 )
@@ -77,6 +77,9 @@ def setup():
     probe = e1.compile_probe(PROBE_SRC)
 
 
+LONG = (9, 10, 11, 12, 16, 17, 18, 24, 33, 40, 65)  # lengths around plausible fast-path thresholds
+
+
 def table_maps():
     bp = (120000, 60000, 240000, 99999)
     out = []
@@ -89,10 +92,19 @@ def table_maps():
     return out
 
 
+def long_map(n, gap_cycle=(1, 2)):
+    bp = (120000, 60000, 240000, 99999, 333333, 45000)
+    ticks, t = [], 0
+    for i in range(n):
+        ticks.append(t)
+        t += gap_cycle[i % len(gap_cycle)]
+    return tuple((tk, bp[i % len(bp)]) for i, tk in enumerate(ticks))
+
+
 def plan(tier, seed):
     L = 4 if tier == "quick" else 5
     maps = HMAPS[:3] if tier == "quick" else HMAPS
-    shards = [("table",)]
+    shards = [("table",)] + [("longtable", n) for n in LONG] + [("longhist", n, k) for n in (10, 18, 40) for k in KINDS]
     for mi in range(len(maps)):
         for k in KINDS:
             for t0 in TICKS:
@@ -129,8 +141,25 @@ ACCEPT = ["consistent", ["raises", "ValueError"]]
 
 
 def run_shard(shard, ctx):
-    if shard[0] == "table":
-        for tempo in table_maps():
+    if shard[0] == "longhist":
+        # histories on a long tempo map: ticks around its beginning, middle and end
+        _, n, kind = shard
+        tempo = long_map(n)
+        tk = [t for t, _ in tempo]
+        alpha = (0, tk[1], tk[n // 2], tk[-2], tk[-1], tk[-1] + 9)
+        for L in (1, 2, 3):
+            for seq in itertools.product(alpha, repeat=L):
+                text = hist_text(tempo, kind, seq)
+                got = e1.run_probe(probe, text)
+                ctx.case((n, kind, seq), nontrivial=L >= 2, sample=lambda: dict(map_events=n, kind=kind, ticks=list(seq)))
+                ctx.evaluations += L
+                ctx.hist["rejected(ValueError)" if got != "consistent" else "parsed_consistent"] += 1
+                if got not in ACCEPT:
+                    e1.report(ctx, "history", text, PROBE_SRC, ACCEPT, got, "kind %s, ticks in file order %r on a tempo map of %d events: stored timestamp differs from the un-hinted query (or a non-ValueError escaped)" % (kind, list(seq), n), extra_case=dict(kind="hist"))
+        return
+    if shard[0] in ("table", "longtable"):
+        maps_ = table_maps() if shard[0] == "table" else [long_map(shard[1]), long_map(shard[1], (3,))]
+        for tempo in maps_:
             ctx.node()
             text = mk(sync=["0 = TS 4"] + ["%d = B %d" % tn for tn in tempo])
             be = impl.parse(text).sync_track.bpm_events
